@@ -283,6 +283,53 @@ namespace R
                    pos );
       }
 
+      static bool is_ident_first( char c ) { return ( c >= 'a' && c <= 'z' ) || ( c >= 'A' && c <= 'Z' ) || c == '_'; }
+      static bool is_ident_other( char c ) { return is_ident_first( c ) || ( c >= '0' && c <= '9' ); }
+      Res run_of( char c, int n, int pos, int end ) const
+      {
+         if( pos + n > end ) return fail();
+         for( int i = 0; i < n; ++i )
+            if( data[ pos + i ] != c ) return fail();
+         return ok( pos + n );
+      }
+      // rep_min_max< Min, Max, one< C > >: between Min and Max C's, not followed by a further C
+      Res romm( char c, int lo, int hi, int pos, int end ) const
+      {
+         int i = 0;
+         while( pos + i < end && data[ pos + i ] == c ) ++i;
+         return ( i >= lo && i <= hi ) ? ok( pos + i ) : fail();
+      }
+      // integer.hpp: "0" not followed by a digit, or a non-zero digit followed by digits; 0 = no match
+      int unsigned_len( int pos, int end ) const
+      {
+         auto dig = [ & ]( int q ) { return q < end && data[ q ] >= '0' && data[ q ] <= '9'; };
+         if( !dig( pos ) ) return 0;
+         if( data[ pos ] == '0' ) return dig( pos + 1 ) ? 0 : 1;
+         int q = pos;
+         while( dig( q ) ) ++q;
+         return q - pos;
+      }
+      // Lua long bracket: '[' '='*n '[' ... first ']' '='*n ']'; 0 = no match
+      int raw_len( int pos, int end ) const
+      {
+         int q = pos;
+         if( !( q < end && data[ q ] == '[' ) ) return 0;
+         ++q;
+         int n = 0;
+         while( q < end && data[ q ] == '=' ) {
+            ++q;
+            ++n;
+         }
+         if( !( q < end && data[ q ] == '[' ) ) return 0;
+         ++q;
+         for( ; q < end; ++q ) {
+            if( data[ q ] != ']' ) continue;
+            int k = 0;
+            while( q + 1 + k < end && data[ q + 1 + k ] == '=' && k < n ) ++k;
+            if( k == n && q + 1 + n < end && data[ q + 1 + n ] == ']' ) return q + n + 2 - pos;
+         }
+         return 0;
+      }
       bool eol_ch( char c ) const
       {
          return ( eol_kind == 2 || eol_kind == 4 ) ? c == '\r' : c == '\n';
@@ -393,6 +440,69 @@ namespace R
             case BYTES2: return pos + 2 <= end ? ok( pos + 2 ) : fail();
             case EVERYTHING: return ok( end );
             case RAISE_MSG: return { RAISE, 0, WHO_RAISE_MSG, pos, pos, -1 };
+            // ---- ascii convenience atoms: doc/Rule-Reference.md
+            case KEYWORD_AB: {  // seq< string< C... >, not_at< identifier_other > >
+               if( !( pos + 2 <= end && ch( pos ) == 'a' && ch( pos + 1 ) == 'b' ) ) return fail();
+               if( pos + 2 < end && is_ident_other( ch( pos + 2 ) ) ) return fail();
+               return ok( pos + 2 );
+            }
+            case IDENTIFIER: {  // seq< identifier_first, star< identifier_other > >
+               if( !( pos < end && is_ident_first( ch( pos ) ) ) ) return fail();
+               int q = pos + 1;
+               while( q < end && is_ident_other( ch( q ) ) ) ++q;
+               return ok( q );
+            }
+            case SHEBANG: {  // if_must< string< '#', '!' >, until< eolf > >
+               if( !( pos + 2 <= end && ch( pos ) == '#' && ch( pos + 1 ) == '!' ) ) return fail();
+               int q = pos + 2;
+               for( ;; ) {
+                  if( q == end ) return ok( q );
+                  const int n = eol_len( q, end );
+                  if( n > 0 ) return ok( q + n );
+                  ++q;
+               }
+            }
+            case TWO_A: return run_of( 'a', 2, pos, end );
+            case THREE_A: return run_of( 'a', 3, pos, end );
+            case FORTY_TWO_A: return run_of( 'a', 42, pos, end );
+            case RANGES_ACX: return ( pos < end && ( ( ch( pos ) >= 'a' && ch( pos ) <= 'c' ) || ch( pos ) == 'x' ) ) ? ok( pos + 1 ) : fail();
+            case REP_STRING2_AB: return ( pos + 4 <= end && ch( pos ) == 'a' && ch( pos + 1 ) == 'b' && ch( pos + 2 ) == 'a' && ch( pos + 3 ) == 'b' ) ? ok( pos + 4 ) : fail();
+            case ROMM12_A: return romm( 'a', 1, 2, pos, end );
+            case ROMM02_A: return romm( 'a', 0, 2, pos, end );
+            case ROMM22_A: return romm( 'a', 2, 2, pos, end );
+            case ROMM00_A: return romm( 'a', 0, 0, pos, end );
+            // ---- contrib
+            case INT_U: {
+               const int n = unsigned_len( pos, end );
+               return n > 0 ? ok( pos + n ) : fail();
+            }
+            case INT_S: {
+               int q = pos;
+               if( q < end && ( ch( q ) == '-' || ch( q ) == '+' ) ) ++q;
+               const int n = unsigned_len( q, end );
+               return n > 0 ? ok( q + n ) : fail();
+            }
+            case INT_MAX8:
+            case INT_MAX300: {
+               const int n = unsigned_len( pos, end );
+               if( n <= 0 ) return fail();
+               unsigned long v = 0;
+               for( int i = 0; i < n; ++i ) {
+                  v = v * 10 + unsigned( ch( pos + i ) - '0' );
+                  if( v > 100000 ) break;
+               }
+               return v <= ( op == INT_MAX8 ? 255u : 300u ) ? ok( pos + n ) : fail();
+            }
+            case RAW: {
+               const int n = raw_len( pos, end );
+               return n > 0 ? ok( pos + n ) : fail();
+            }
+            case PRED_AND: return ( pos < end && ( ch( pos ) == 'a' || ch( pos ) == 'c' ) ) ? ok( pos + 1 ) : fail();
+            case PRED_NOT: return ( pos < end && ch( pos ) != 'a' ) ? ok( pos + 1 ) : fail();
+            case PRED_OR: return ( pos < end && ( ch( pos ) == 'a' || ch( pos ) == 'c' ) ) ? ok( pos + 1 ) : fail();
+            case SEPARATED_SEQ: return seq( B, [ = ]( int q ) { return seq( A, C, q ); }, pos );  // separated_seq< S, X, Y > = seq< X, S, Y >
+            case IF_THEN_ELSE_THEN: return ite( A, B, C, pos );  // if_then< A, B >::else_then< C >
+            case IF_THEN: return ite( A, B, [ = ]( int ) { return fail(); }, pos );  // if_then< A, B > without else: fails when A fails
 
             case STAR: return star( A, pos );
             case PLUS: return seq( A, [ = ]( int q ) { return star( A, q ); }, pos );
